@@ -974,6 +974,9 @@ func (ex *Exec) modSet(blocks map[*ssa.BasicBlock]bool) (map[string]bool, bool) 
 					ex.staticHeapVars(com.Args[0], out, map[ssa.Value]bool{})
 					continue
 				}
+				if ex.g.cs.Extern[callee.String()] {
+					continue
+				}
 				cc := ex.g.contracts[callee]
 				if cc != nil && (cc.Flags["pure"] || cc.Flags["inline"] || cc.Flags["uninterpreted"]) {
 					continue
